@@ -1,9 +1,13 @@
 /* /verif/contracts/civil.h - contracts for include/cctz/civil_time_detail.h (unit civil).
  * Function contracts live on declarations; loop contracts are in units/civil_loops.py. */
 #include "/verif/spec/gregorian.h"
+#pragma CPROVER check push
+#pragma CPROVER check disable "signed-overflow"
+#pragma CPROVER check disable "conversion"
 
 bool is_leap_year(year_t y)
 __CPROVER_ensures(__CPROVER_return_value == (LEAP(y) ? 1 : 0))
+__CPROVER_ensures(__CPROVER_return_value == (LEAP((int)FM(y, 400)) ? 1 : 0))
 __CPROVER_assigns();
 
 int year_index(year_t y, month_t m)
@@ -25,9 +29,173 @@ __CPROVER_assigns();
 int days_per_year(year_t y, month_t m)
 __CPROVER_requires(1 <= m && m <= 12 && y < INT64_MAX)
 __CPROVER_ensures(__CPROVER_return_value == 365 + (LEAP(y + (m > 2 ? 1 : 0)) ? 1 : 0))
+__CPROVER_ensures(__CPROVER_return_value == 365 + (LEAP((int)FM(y + (m > 2 ? 1 : 0), 400)) ? 1 : 0))
 __CPROVER_assigns();
 
 int days_per_month(year_t y, month_t m)
 __CPROVER_requires(1 <= m && m <= 12)
 __CPROVER_ensures(__CPROVER_return_value == DIM(LEAP(y), m))
+__CPROVER_ensures(__CPROVER_return_value == DIM(LEAP((int)FM(y, 400)), m))
 __CPROVER_assigns();
+
+/* ---- code-free lemmas used as ghost calls inside n_day ----
+ * Each lemma L has macros L_REQ / L_ENS; the contract below is what callers assume, and the
+ * plain harness pl_L in harness/civil.c (assume L_REQ; proof steps; assert L_ENS) is what proves it. */
+#define K400(qc, qd) ((qc) * 400 + (qd) * 400)
+#define QBOUND ((year_t)1 << 47)
+#define SMALLY(e) (-3000 <= (e) && (e) <= 3000)
+
+/* quotients of int64 by 146097 are small */
+#define lemma_quot_bounds_REQ(cd, d) (1)
+#define lemma_quot_bounds_ENS(cd, d) \
+  (-QBOUND < (cd) / 146097 && (cd) / 146097 < QBOUND && -QBOUND < (d) / 146097 && (d) / 146097 < QBOUND && \
+   -146097 < (cd) % 146097 && (cd) % 146097 < 146097 && -146097 < (d) % 146097 && (d) % 146097 < 146097)
+void lemma_quot_bounds(diff_t cd, diff_t d)
+__CPROVER_requires(lemma_quot_bounds_REQ(cd, d))
+__CPROVER_ensures(lemma_quot_bounds_ENS(cd, d))
+__CPROVER_assigns();
+
+/* a year x that is a multiple of 400 away from a small year has that small year's place in the cycle */
+#define lemma_shift400_REQ(x, qc, qd) \
+  (-QBOUND < (qc) && (qc) < QBOUND && -QBOUND < (qd) && (qd) < QBOUND && SMALLY((Z)(x) - (Z)K400(qc, qd)))
+#define lemma_shift400_ENS(x, qc, qd) ((int)FM(x, 400) == FM((int)((x) - K400(qc, qd)), 400))
+void lemma_shift400(year_t x, year_t qc, year_t qd)
+__CPROVER_requires(lemma_shift400_REQ(x, qc, qd))
+__CPROVER_ensures(lemma_shift400_ENS(x, qc, qd))
+__CPROVER_assigns();
+
+/* ---- small arithmetic lemmas (each proved on its own, with only its own hypotheses) ---- */
+#define FITS64(v) ((Z)INT64_MIN <= (v) && (v) <= (Z)INT64_MAX)
+#define ZB(v, bits) (-((Z)1 << (bits)) < (Z)(v) && (Z)(v) < ((Z)1 << (bits)))
+/* truncating division identity for the 400-year cycle length */
+#define lemma_div146097_REQ(x) (1)
+#define lemma_div146097_ENS(x) ((Z)(x) == (Z)146097 * ((x) / 146097) + (x) % 146097 && -146097 < (x) % 146097 && (x) % 146097 < 146097 && \
+                                -QBOUND < (x) / 146097 && (x) / 146097 < QBOUND)
+/* y = 400*(y/400) + y%400 */
+#define lemma_div400_REQ(y) (1)
+#define lemma_div400_ENS(y) ((Z)(y) == (Z)400 * ((y) / 400) + (y) % 400 && -400 < (y) % 400 && (y) % 400 < 400)
+/* floor quotients shift exactly under a shift of the dividend by 400k   (e, k : Z; c a small constant) */
+#define lemma_fdshift_REQ(e, k, c) (ZB(e, 68) && ZB(k, 68) && 0 <= (c) && (c) < 400)
+#define lemma_fdshift4_ENS(e, k, c) (FD((Z)((e) + 400 * (k)) + (c), 4) == FD((Z)(e) + (c), 4) + 100 * (k))
+#define lemma_fdshift100_ENS(e, k, c) (FD((Z)((e) + 400 * (k)) + (c), 100) == FD((Z)(e) + (c), 100) + 4 * (k))
+#define lemma_fdshift400_ENS(e, k, c) (FD((Z)((e) + 400 * (k)) + (c), 400) == FD((Z)(e) + (c), 400) + (k))
+/* remainders are 400-periodic */
+#define lemma_fmshift_REQ(e, k) (ZB(e, 67) && ZB(k, 67))
+#define lemma_fmshift_ENS(e, k) (FM((Z)((e) + 400 * (k)), 400) == FM((Z)(e), 400))
+/* leap status depends only on the place in the 400-year cycle */
+#define lemma_leapidx_REQ(Y) (ZB(Y, 68))
+#define lemma_leapidx_ENS(Y) ((LEAP((Z)(Y)) ? 1 : 0) == (LEAP(FM((Z)(Y), 400)) ? 1 : 0))
+/* hence leap status and ordinals are 400-periodic */
+#define lemma_period_REQ(e, k, m, d) (ZB(e, 64) && ZB(k, 57) && 1 <= (m) && (m) <= 12 && 1 <= (d) && (d) <= 31)
+#define lemma_period_ENS(e, k, m, d) (ORD((e) + 400 * (k), m, d) == ORD(e, m, d) + (Z)146097 * (k) && \
+                                      (LEAP((Z)((e) + 400 * (k))) ? 1 : 0) == (LEAP((Z)(e)) ? 1 : 0))
+/* equal years have equal ordinals (instantiated where two spellings of one year must be identified) */
+#define lemma_cong_REQ(A, B, m, d) ((Z)(A) == (Z)(B))
+#define lemma_cong_ENS(A, B, m, d) (ORD(A, m, d) == ORD(B, m, d) && (LEAP((Z)(A)) ? 1 : 0) == (LEAP((Z)(B)) ? 1 : 0))
+/* an ordinal lies within its year, and years are ordered like their first days */
+#define lemma_ordyear_REQ(Y, m, d) (ZB(Y, 66) && 1 <= (m) && (m) <= 12 && 1 <= (d) && (d) <= 31)
+#define lemma_ordyear_ENS(Y, m, d) (ORDY(Y) <= ORD(Y, m, d) && ORD(Y, m, d) < ORDY((Z)(Y) + 1) && \
+                                    (!((Z)(Y) > INT64_MAX) || ORDY(Y) > ORD_MAX) && (!((Z)(Y) < INT64_MIN) || ORDY((Z)(Y) + 1) <= ORD_MIN))
+
+/* two purely linear facts over opaque quantities, used to finish lemma_nday_lift */
+#define lemma_lin_lift_REQ(oRY, oE1, oE, oY, oO1, oO, iE, iO, k0, k1, qc, qd, rc, rd, d0, cd0) \
+  ((oRY) == (oE1) && (oE1) == (oE) + (Z)146097 * (k1) && (oY) == (oO1) && (oO1) == (oO) + (Z)146097 * (k0) && \
+   (oE) == (Z)(iE) && (oO) == (Z)(iO) && (iE) == (iO) + ((int)(rc) + (int)(rd)) - 1 && (k1) == (k0) + (Z)(qc) + (Z)(qd) && \
+   (Z)(cd0) == (Z)146097 * (qc) + (rc) && (Z)(d0) == (Z)146097 * (qd) + (rd) && -146097 < (rc) && (rc) < 146097 && -146097 < (rd) && (rd) < 146097)
+#define lemma_lin_lift_ENS(oRY, oE1, oE, oY, oO1, oO, iE, iO, k0, k1, qc, qd, rc, rd, d0, cd0) \
+  ((oRY) == (oY) + (Z)(d0) - 1 + (Z)(cd0))
+#define lemma_lin_fits_REQ(RY, oy, oy1, o, T, omin, omax) \
+  ((oy) <= (o) && (o) < (oy1) && (!((Z)(RY) > INT64_MAX) || (oy) > (omax)) && (!((Z)(RY) < INT64_MIN) || (oy1) <= (omin)) && \
+   (omin) <= (T) && (T) <= (omax) && (o) == (T))
+#define lemma_lin_fits_ENS(RY, oy, oy1, o, T, omin, omax) (FITS64((Z)(RY)))
+
+#define NDAY_T(y, m, d, cd) (ORD(y, m, 1) + (Z)(d) - 1 + (Z)(cd))
+#define LIFT_E(ey, d0, cd0) ((Z)(ey) - (Z)K400((cd0) / 146097, (d0) / 146097))
+#define LIFT_RY(y, ey, oey) ((Z)(y) + (Z)(ey) - (Z)(oey))
+#define LIFT_R(d0, cd0) ((int)((cd0) % 146097) + (int)((d0) % 146097))
+#define WRAP_RY(y, ey, oey) ((year_t)((uint64_t)(y) + ((uint64_t)(ey) - (uint64_t)(oey))))
+
+/* from the small-year conservation law to the 64-bit year / 128-bit ordinal;
+ * ry is the result year exactly as the code computes it, y + (ey - oey), with wrap-around made explicit */
+#define lemma_nday_lift_REQ(y, m0, d0, cd0, ey, oey, m1, d1, ry) \
+  (1 <= (m0) && (m0) <= 12 && 1 <= (m1) && (m1) <= 12 && 1 <= (d1) && (d1) <= 31 && (oey) == (y) % 400 && \
+   (ry) == WRAP_RY(y, ey, oey) && \
+   ORD_MIN <= NDAY_T(y, m0, d0, cd0) && NDAY_T(y, m0, d0, cd0) <= ORD_MAX && \
+   -1300 <= LIFT_E(ey, d0, cd0) && LIFT_E(ey, d0, cd0) <= 2100 && \
+   ORD_I((int)LIFT_E(ey, d0, cd0), m1, (int)(d1)) == ORD_I((int)(oey), m0, 1) + LIFT_R(d0, cd0) - 1)
+#define lemma_nday_lift_ENS(y, m0, d0, cd0, ey, oey, m1, d1, ry) \
+  (FITS64(LIFT_RY(y, ey, oey)) && (Z)(ry) == LIFT_RY(y, ey, oey) && \
+   ORD(ry, m1, d1) == NDAY_T(y, m0, d0, cd0) && \
+   (LEAP((Z)(ry)) ? 1 : 0) == (LEAP((int)LIFT_E(ey, d0, cd0)) ? 1 : 0))
+void lemma_nday_lift(year_t y, int m0, diff_t d0, diff_t cd0, year_t ey, year_t oey, int m1, diff_t d1, year_t ry)
+__CPROVER_requires(lemma_nday_lift_REQ(y, m0, d0, cd0, ey, oey, m1, d1, ry))
+__CPROVER_ensures(lemma_nday_lift_ENS(y, m0, d0, cd0, ey, oey, m1, d1, ry))
+__CPROVER_assigns();
+
+/* day ordinal the result of n_day must have: days are counted from the first of month m */
+fields n_day(year_t y, month_t m, diff_t d, diff_t cd, hour_t hh, minute_t mm, second_t ss)
+__CPROVER_requires(1 <= m && m <= 12)
+__CPROVER_requires(ORD_MIN <= NDAY_T(y, m, d, cd) && NDAY_T(y, m, d, cd) <= ORD_MAX)
+__CPROVER_ensures(__CPROVER_return_value.hh == hh && __CPROVER_return_value.mm == mm && __CPROVER_return_value.ss == ss)
+__CPROVER_ensures(VALID_YMD(__CPROVER_return_value.y, __CPROVER_return_value.m, __CPROVER_return_value.d))
+__CPROVER_ensures(ORD(__CPROVER_return_value.y, __CPROVER_return_value.m, __CPROVER_return_value.d) == NDAY_T(y, m, d, cd))
+__CPROVER_assigns();
+
+/* ---- the carry chain above n_day (C04) -------------------------------------------------------
+ * NMON_*: month m (any int64) is first carried into the year: year Y1 = y + floor((m-1)/12),
+ * month M1 = (m-1) mod 12 + 1; then days are counted from the first of that month. */
+#define NMON_Y1(y, m) ((Z)(y) + FD((Z)(m) - 1, 12))
+#define NMON_M1(m) ((int)FM((Z)(m) - 1, 12) + 1)
+#define NMON_T(y, m, d, cd) (ORD(NMON_Y1(y, m), NMON_M1(m), 1) + (Z)(d) - 1 + (Z)(cd))
+#define RV __CPROVER_return_value
+
+fields n_mon(year_t y, diff_t m, diff_t d, diff_t cd, hour_t hh, minute_t mm, second_t ss)
+__CPROVER_requires(FITS64(NMON_Y1(y, m)))
+__CPROVER_requires(ORD_MIN <= NMON_T(y, m, d, cd) && NMON_T(y, m, d, cd) <= ORD_MAX)
+__CPROVER_ensures(RV.hh == hh && RV.mm == mm && RV.ss == ss)
+__CPROVER_ensures(VALID_YMD(RV.y, RV.m, RV.d))
+__CPROVER_ensures(ORD(RV.y, RV.m, RV.d) == NMON_T(y, m, d, cd))
+__CPROVER_assigns();
+
+#define CARRYB ((diff_t)1 << 61)
+fields n_hour(year_t y, diff_t m, diff_t d, diff_t cd, diff_t hh, minute_t mm, second_t ss)
+__CPROVER_requires(-CARRYB <= cd && cd <= CARRYB)
+__CPROVER_requires(FITS64(NMON_Y1(y, m)))
+__CPROVER_requires(ORD_MIN <= NMON_T(y, m, d, (Z)cd + FD((Z)hh, 24)) && NMON_T(y, m, d, (Z)cd + FD((Z)hh, 24)) <= ORD_MAX)
+__CPROVER_ensures(RV.hh == FM((Z)hh, 24) && RV.mm == mm && RV.ss == ss)
+__CPROVER_ensures(VALID_YMD(RV.y, RV.m, RV.d))
+__CPROVER_ensures(ORD(RV.y, RV.m, RV.d) == NMON_T(y, m, d, (Z)cd + FD((Z)hh, 24)))
+__CPROVER_assigns();
+
+/* total hours carried into the day count by n_min: hh + ch + floor(mm/60) */
+#define NMIN_H(hh, ch, mm) ((Z)(hh) + (Z)(ch) + FD((Z)(mm), 60))
+fields n_min(year_t y, diff_t m, diff_t d, diff_t hh, diff_t ch, diff_t mm, second_t ss)
+__CPROVER_requires(-CARRYB <= ch && ch <= CARRYB)
+__CPROVER_requires(FITS64(NMON_Y1(y, m)))
+__CPROVER_requires(ORD_MIN <= NMON_T(y, m, d, FD(NMIN_H(hh, ch, mm), 24)) && NMON_T(y, m, d, FD(NMIN_H(hh, ch, mm), 24)) <= ORD_MAX)
+__CPROVER_ensures(RV.hh == FM(NMIN_H(hh, ch, mm), 24) && RV.mm == FM((Z)mm, 60) && RV.ss == ss)
+__CPROVER_ensures(VALID_YMD(RV.y, RV.m, RV.d))
+__CPROVER_ensures(ORD(RV.y, RV.m, RV.d) == NMON_T(y, m, d, FD(NMIN_H(hh, ch, mm), 24)))
+__CPROVER_assigns();
+
+/* n_sec: the whole carry chain.  Total minutes M = mm + floor(ss/60), total hours H = hh + floor(M/60) */
+#define NSEC_M(mm, ss) ((Z)(mm) + FD((Z)(ss), 60))
+#define NSEC_H(hh, mm, ss) ((Z)(hh) + FD(NSEC_M(mm, ss), 60))
+#define NSEC_T(y, m, d, hh, mm, ss) NMON_T(y, m, d, FD(NSEC_H(hh, mm, ss), 24))
+fields n_sec(year_t y, diff_t m, diff_t d, diff_t hh, diff_t mm, diff_t ss)
+__CPROVER_requires(FITS64(NMON_Y1(y, m)))
+__CPROVER_requires(ORD_MIN <= NSEC_T(y, m, d, hh, mm, ss) && NSEC_T(y, m, d, hh, mm, ss) <= ORD_MAX)
+__CPROVER_ensures(RV.ss == FM((Z)ss, 60) && RV.mm == FM(NSEC_M(mm, ss), 60) && RV.hh == FM(NSEC_H(hh, mm, ss), 24))
+__CPROVER_ensures(VALID_YMD(RV.y, RV.m, RV.d))
+__CPROVER_ensures(ORD(RV.y, RV.m, RV.d) == NSEC_T(y, m, d, hh, mm, ss))
+__CPROVER_assigns();
+
+/* alignment: fields below the unit are reset to their minimum, fields above are untouched */
+fields align_second(fields f) __CPROVER_ensures(FIELDS_EQ(RV, f)) __CPROVER_assigns();
+fields align_minute(fields f) __CPROVER_ensures(RV.y == f.y && RV.m == f.m && RV.d == f.d && RV.hh == f.hh && RV.mm == f.mm && RV.ss == 0) __CPROVER_assigns();
+fields align_hour(fields f) __CPROVER_ensures(RV.y == f.y && RV.m == f.m && RV.d == f.d && RV.hh == f.hh && RV.mm == 0 && RV.ss == 0) __CPROVER_assigns();
+fields align_day(fields f) __CPROVER_ensures(RV.y == f.y && RV.m == f.m && RV.d == f.d && RV.hh == 0 && RV.mm == 0 && RV.ss == 0) __CPROVER_assigns();
+fields align_month(fields f) __CPROVER_ensures(RV.y == f.y && RV.m == f.m && RV.d == 1 && RV.hh == 0 && RV.mm == 0 && RV.ss == 0) __CPROVER_assigns();
+fields align_year(fields f) __CPROVER_ensures(RV.y == f.y && RV.m == 1 && RV.d == 1 && RV.hh == 0 && RV.mm == 0 && RV.ss == 0) __CPROVER_assigns();
+
+#pragma CPROVER check pop
